@@ -113,12 +113,20 @@ def main(argv):
     failures, samples, cases = [], [], 0
 
     def fail(oid, witness, observed):
-        if sum(1 for f in failures if f["obligation"] == oid) < 3:
+        if sum(1 for f in failures if f["obligation"] == oid) < 60:
             failures.append(dict(obligation=oid, witness=witness, observed=observed))
     from fparser.two.utils import FortranSyntaxError
     programs = [(n, s, "f2003") for n, s in CATALOGUE.items()] + [(n, s, "f2008") for n, s in CATALOGUE.items()] + \
                [(n, s, "f2008") for n, s in F2008_EXTRA.items()]
     if set(only) & {"C10", "C18", "C01"}:
+        if "C01" in only or tier == "thorough":
+            # one small program per statement of the statement corpus (shared with the C17 check)
+            from checks import enum_registries as ER
+            corpus = [("exec:%d" % i, "program p\n  %s\nend program p\n" % x) for i, x in enumerate(ER.EXEC)] + \
+                     [("spec:%d" % i, "module m\n  %s\nend module m\n" % x) for i, x in enumerate(ER.SPEC)] + \
+                     [("iface:%d" % i, "module m\ninterface g\n%s\nend interface g\nend module m\n" % x) for i, x in enumerate(ER.IFACE)] + \
+                     [("format:%d" % i, "program p\n100 format(%s)\nend program p\n" % x) for i, x in enumerate(ER.FORMATS)]
+            programs = programs + [(n, x, std) for n, x in corpus for std in ("f2003", "f2008")]
         for name, src, std in programs:
             for kw in modes():
                 cases += 1
@@ -126,7 +134,8 @@ def main(argv):
                 try:
                     tree = parse(src, std, **kw)
                 except BaseException as e:  # noqa
-                    fail("catalogue#parses", wit, "%s: %s" % (type(e).__name__, str(e)[:200]))
+                    if ":" not in name:     # corpus statements need not be valid in the wrapper (that is C17's business)
+                        fail("catalogue#parses", wit, "%s: %s" % (type(e).__name__, str(e)[:200]))
                     continue
                 if "C10" in only:
                     for p in well_formed(tree):
@@ -193,24 +202,30 @@ def main(argv):
             for li in range(len(lines)):
                 if lines[li].strip().lower().startswith(("end", "contains", "else", "case", "elsewhere")) or li == 0:
                     continue
+                # lines are separated by "\n" only: other control characters (form feed page breaks of legacy sources,
+                # vertical tab, NEL, unicode separators) inside earlier lines must not shift the reported position
+                decorations = [[], ["\x0c", "  ! page\x0bbreak \x1c \x85 \u2028 here"]]
                 for garbage in ("@@ not fortran @@", "= = ="):
-                    src = "\n".join(lines[:li] + ["  " + garbage] + lines[li + 1:]) + "\n"
-                    cases += 1
-                    try:
-                        parse(src, "f2003")
-                        fail("error#garbage_rejected", dict(source=src), "accepted")
-                    except FortranSyntaxError as e:
-                        msg = str(e)
-                        want = "at line %d\n>>>  %s\n" % (li + 1, garbage)
-                        if not msg.startswith(want):
-                            fail("error#names_offending_line", dict(source=src, line=li + 1), dict(message=msg[:120], expected_prefix=want))
-                    except BaseException as e:  # noqa
-                        fail("error#garbage_rejected", dict(source=src), "raised %s" % type(e).__name__)
+                    for deco in decorations:
+                        src = "\n".join(lines[:1] + deco + lines[1:li] + ["  " + garbage] + lines[li + 1:]) + "\n"
+                        cases += 1
+                        lineno = li + 1 + len(deco)
+                        try:
+                            parse(src, "f2003")
+                            fail("error#garbage_rejected", dict(source=src), "accepted")
+                        except FortranSyntaxError as e:
+                            msg = str(e)
+                            want = "at line %d\n>>>  %s\n" % (lineno, garbage)
+                            if not msg.startswith(want):
+                                fail("error#names_offending_line", dict(source=src, line=lineno), dict(message=msg[:120], expected_prefix=want))
+                        except BaseException as e:  # noqa
+                            fail("error#garbage_rejected", dict(source=src), "raised %s" % type(e).__name__)
     if "C14" in only:
         directives = ["#ifdef X", "#ifndef Y", "#if defined(A) && B", "#elif C", "#else", "#endif", "#include \"f.h\"", "#define N 3", "#undef N",
                       "#line 7 \"a.f90\"", "#error stop here", "#warning careful", "#", "# 12 \"x.f90\" 2", "#define LONG a + \\\n   b"]
         from fparser.two import C99Preprocessor as C99
         from fparser.two.utils import walk
+        payload = lambda s: "".join(s.replace("\\\n", "").split()).lower()     # noqa: E731
         for name in ("plain", "module", "select_where"):
             lines = CATALOGUE[name].splitlines()
             base_tree = parse(CATALOGUE[name], "f2003")
@@ -227,12 +242,64 @@ def main(argv):
                     if len(cpp_nodes) != 1:
                         fail("cpp#one_node_per_directive", dict(source=src), dict(nodes=[type(n).__name__ for n in cpp_nodes]))
                         continue
-                    payload = lambda s: "".join(s.replace("\\\n", "").split()).lower()     # noqa: E731
                     if payload(str(cpp_nodes[0])) != payload(d):
                         fail("cpp#payload_intact", dict(source=src), dict(printed=str(cpp_nodes[0]), directive=d))
                     rest = [l.strip() for l in str(t).splitlines() if l.strip() != str(cpp_nodes[0]).strip()]
                     if rest != [l.strip() for l in str(base_tree).splitlines()]:
                         fail("cpp#rest_of_tree_unchanged", dict(source=src), dict(printed=str(t)[:400]))
+        # comments retained: directives placed among comments (before, between, after) leave every other node where it was
+        def signature(tree):
+            out = []
+
+            def rec(node, depth):
+                if type(node).__module__ == C99.__name__:
+                    return
+                out.append((depth, type(node).__name__, str(node) if not getattr(node, "content", None) and isinstance(node, Base_) and not any(isinstance(c, Base_) for c in node.children) else ""))
+                for c in getattr(node, "children", []) or []:
+                    if isinstance(c, Base_):
+                        rec(c, depth + 1)
+            rec(tree, 0)
+            return out
+        from fparser.two.utils import Base as Base_
+        commented = {
+            "comments": CATALOGUE["comments"],
+            "commented_plain": "\n".join(x for l in CATALOGUE["plain"].splitlines() for x in ("  ! about: " + l.strip().replace("'", ""), l)) + "\n! trailing\n",
+            "commented_module": "! header\n" + "\n".join(x for l in CATALOGUE["module"].splitlines() for x in (l, "  ! after: " + l.strip())) + "\n",
+        }
+        groups = [["#ifdef X"], ["#define N 3", "#undef N"], ["#ifdef X", "  ! between the directives", "#endif"]]
+        for name, text in commented.items():
+            lines = text.splitlines()
+            try:
+                base_sig = signature(parse(text, "f2003", ignore_comments=False))
+            except BaseException as e:  # noqa
+                fail("cpp#commented_base_parses", dict(program=name, source=text), "%s: %s" % (type(e).__name__, str(e)[:120]))
+                continue
+            for pos in range(0, len(lines) + 1):
+                prev = [l for l in lines[:pos] if l.strip() and not l.lstrip().startswith("!")]
+                if prev and prev[-1].split("!")[0].rstrip().endswith("&"):
+                    continue            # inside a continued statement (comment lines may sit between its parts)
+                for grp in (groups if tier == "thorough" else groups[pos % 3:pos % 3 + 1]):
+                    src = "\n".join(lines[:pos] + grp + lines[pos:]) + "\n"
+                    cases += 1
+                    try:
+                        t = parse(src, "f2003", ignore_comments=False)
+                    except BaseException as e:  # noqa
+                        fail("cpp#directive_among_comments_does_not_disturb_parse", dict(program=name, position=pos, directives=grp, source=src),
+                             "%s: %s" % (type(e).__name__, str(e)[:120]))
+                        continue
+                    cpp_nodes = [n for n in walk(t) if type(n).__module__ == C99.__name__ and type(n).__name__.endswith("_Stmt")]
+                    want_d = [g for g in grp if g.lstrip().startswith("#")]
+                    if [payload(str(n)) for n in cpp_nodes] != [payload(g) for g in want_d]:
+                        fail("cpp#directives_in_order_among_comments", dict(program=name, position=pos, directives=grp, source=src), dict(nodes=[str(n) for n in cpp_nodes]))
+                        continue
+                    sig = signature(t)
+                    extra = [g for g in grp if not g.lstrip().startswith("#")]
+                    if extra:
+                        sig = [x for x in sig if not (x[1] == "Comment" and x[2].strip() == extra[0].strip())]
+                    if sig != base_sig:
+                        k = next((i for i, (a, b) in enumerate(zip(sig, base_sig)) if a != b), min(len(sig), len(base_sig)))
+                        fail("cpp#rest_of_tree_unchanged_with_comments", dict(program=name, position=pos, directives=grp, source=src),
+                             dict(first_difference=dict(got=sig[k] if k < len(sig) else None, expected=base_sig[k] if k < len(base_sig) else None)))
     if "C13" in only:
         from fparser.common.readfortran import FortranFileReader, FortranStringReader
         from fparser.two.parser import ParserFactory
@@ -329,6 +396,12 @@ def main(argv):
             "nested_do": lambda n: "program p\n" + "".join("do i%d = 1, 2\n" % k for k in range(n)) + "x = 1\n" + "end do\n" * n + "end program p\n",
             "shared_label_do": lambda n: "program p\n" + "".join("do 10 i%d = 1, 2\n" % k for k in range(n)) + "x = 1\n10 continue\nend program p\n",
             "nonblock_labelled_do": lambda n: "program p\n" + "".join("do %d i%d = 1, 2\n" % (10 + k, k) for k in range(n)) + "".join("%d x = %d\n" % (10 + k, k) for k in reversed(range(n))) + "end program p\n",
+            "labelled_block_do_continue": lambda n: "program p\n" + "".join("do %d i%d = 1, 2\n" % (10 + k, k) for k in range(n)) + "x = 1\n" + "".join("%d continue\n" % (10 + k) for k in reversed(range(n))) + "end program p\n",
+            "labelled_block_do_enddo": lambda n: "program p\n" + "".join("do %d i%d = 1, 2\n" % (10 + k, k) for k in range(n)) + "x = 1\n" + "".join("%d end do\n" % (10 + k) for k in reversed(range(n))) + "end program p\n",
+            "shared_label_pairs": lambda n: "program p\n" + "".join("do %d i%d = 1, 2\ndo %d j%d = 1, 2\n" % (10 + k, k, 10 + k, k) for k in range(n)) + "x = 1\n" + "".join("%d continue\n" % (10 + k) for k in reversed(range(n))) + "end program p\n",
+            "nested_where": lambda n: "program p\n" + "where (a > 0)\n" * n + "a = 1\n" + "end where\n" * n + "end program p\n",
+            "nested_associate": lambda n: "program p\n" + "".join("associate (v%d => a)\n" % k for k in range(n)) + "x = 1\n" + "end associate\n" * n + "end program p\n",
+            "nested_type_contains": lambda n: "module m\ncontains\n" + "".join("subroutine s%d\ncontains\n" % k for k in range(1)) + "subroutine t\nend subroutine t\n" + "".join("end subroutine s%d\n" % k for k in reversed(range(1))) + "end module m\n" + "".join("subroutine u%d\nx = 1\nend subroutine u%d\n" % (k, k) for k in range(n)),
             "select": lambda n: "program p\n" + "".join("select case (i)\ncase (1)\n" for _ in range(n)) + "x = 1\n" + "end select\n" * n + "end program p\n",
             "repeat_assign": lambda n: "program p\n" + "x = x + 1\n" * n + "end program p\n",
             "repeat_loop": lambda n: "program p\n" + "do i = 1, 2\nx = 1\nend do\n" * n + "end program p\n",
